@@ -166,6 +166,89 @@ def judge_object(ctx, curve, dom, obj, P_claim, cls, key):
                       % (curve.name, points.src(obj), want) if curve.name in lib.BY_NAME else None)
 
 
+def _cubic_roots(dom):
+    """Roots of x^3 + ax + b over F_p (x coordinates of the points of order 2), by gcd with x^p - x using plain polynomial arithmetic."""
+    p, a_, b_ = dom.p, dom.curve.a % dom.p, dom.curve.b % dom.p
+
+    def mulmod(u, v):
+        # polynomials of degree < 3 as [c0, c1, c2]; reduce by x^3 = -a x - b
+        r = [0] * 5
+        for i, ui in enumerate(u):
+            for j, vj in enumerate(v):
+                r[i + j] = (r[i + j] + ui * vj) % p
+        for k in (4, 3):
+            c = r[k]
+            if c:
+                r[k] = 0
+                r[k - 2] = (r[k - 2] - c * a_) % p
+                r[k - 3] = (r[k - 3] - c * b_) % p
+        return r[:3]
+    # x^p mod f
+    res, base, e = [1, 0, 0], [0, 1, 0], p
+    while e:
+        if e & 1:
+            res = mulmod(res, base)
+        base = mulmod(base, base)
+        e >>= 1
+    g = [(res[0]) % p, (res[1] - 1) % p, res[2] % p]       # x^p - x mod f
+    f = [b_, a_, 0, 1]
+
+    def trim(q):
+        while q and q[-1] == 0:
+            q.pop()
+        return q
+
+    def polymod(u, v):
+        u = trim(list(u))
+        v = trim(list(v))
+        while len(u) >= len(v) and u:
+            c = u[-1] * nt.inv(v[-1], p) % p
+            sh = len(u) - len(v)
+            for i, vi in enumerate(v):
+                u[i + sh] = (u[i + sh] - c * vi) % p
+            trim(u)
+        return u
+    u, v = f, trim(g)
+    while v:
+        u, v = v, polymod(u, v)
+    u = trim(list(u))
+    roots = []
+    if len(u) == 2:                 # one linear factor: c0 + c1 x
+        roots = [(-u[0]) * nt.inv(u[1], p) % p]
+    elif len(u) == 3:               # two roots: quadratic formula
+        c0, c1, c2 = u
+        disc = (c1 * c1 - 4 * c2 * c0) % p
+        sq = nt.sqrt_mod(disc, p)
+        if sq is not None:
+            i2 = nt.inv(2 * c2, p)
+            roots = [(-c1 + sq) * i2 % p, (-c1 - sq) * i2 % p]
+    elif len(u) == 4:               # all three roots in F_p: find one by the quadratic part after dividing... rare; fall back to none
+        roots = []
+    return [r_ for r_ in roots if (r_ * r_ * r_ + a_ * r_ + b_) % p == 0]
+
+
+def judge_pair(ctx, curve, dom, x, y, cls, key):
+    """ecdsa.ecdsa.point_is_valid(generator, x, y): the stand-alone validator (anchor of the property) decides like the loaders do."""
+    from ecdsa import ecdsa as _e
+    try:
+        sec1.validate_point(dom, (x, y))
+        want, reason = True, "ok"
+    except sec1.Invalid as ex:
+        want, reason = False, ex.reason
+    tt = False
+    if reason == "subgroup":
+        T = dom.curve.mul(dom.n, (x, y))
+        tt = T is not None and T[1] == 0
+    try:
+        got = _e.point_is_valid(curve.generator, x, y)
+    except Exception as ex:
+        got = "raised %s: %s" % (type(ex).__name__, ex)
+    ctx.case(cls, key="%s|%s" % (key, reason))
+    if got is not want:
+        mech = KF_2T if (tt and got is True) else ("point_is_valid_wrong:" + reason)
+        ctx.violation(mech, "%s point_is_valid(G, %d, %d) = %r, validator says %s (%s)" % (curve.name, x, y, got, want, reason), dict(curve=curve.name, x=x, y=y, reason=reason))
+
+
 ENCS = ("raw", "uncompressed", "compressed", "hybrid")
 
 
@@ -190,6 +273,17 @@ def run(ctx, name, kind, **kw):
         valid = [("G", G), ("-G", cv.neg(G))]
         for _ in range(kw["nvalid"]):
             valid.append(("rand", cv.mul(rng.randrange(2, n - 1), G)))
+        # the stand-alone validator: real points, their out-of-range aliases, neighbours, and (cofactor curves) the points of order 2
+        # in every way of writing y = 0
+        pairs_ = []
+        for _nm, P_ in valid[:4]:
+            pairs_ += [P_, (P_[0] + p, P_[1]), (P_[0], P_[1] + p), (P_[0] - p, P_[1]), (P_[0], P_[1] - p), (P_[0], -P_[1]), (P_[0], p - P_[1]), (P_[0], (P_[1] + 1) % p), ((P_[0] + 1) % p, P_[1])]
+        if dom.h and dom.h > 1:
+            for x0_ in range(p) if p < 5000 else [r_ for r_ in _cubic_roots(dom)]:
+                if cv.rhs(x0_) % p == 0:
+                    pairs_ += [(x0_, 0), (x0_, p), (x0_, -p), (x0_ + p, 0), (x0_, 2 * p), (x0_ - p, p)]
+        for x_, y_ in pairs_:
+            judge_pair(ctx, c, dom, x_, y_, "point_is_valid", c.name)
         # leading-zero coordinates by search on the reference
         if kw["lz"]:
             P = cv.mul(rng.randrange(2, n), G)
@@ -474,4 +568,9 @@ def run(ctx, name, kind, **kw):
                             continue
                         data = sec1.encode_point(dom, P, enc)
                         judge_bytes(ctx, curve, dom, data, cls, "%s|h%d" % ("even" if t.N % 2 == 0 else "odd", t.N // n), "string", enc)
+            # the stand-alone validator on every integer pair of [-2, 2p+1]^2 (aliases x + p, y + p, y = p of real points included)
+            if p <= 23:
+                for x in range(-2, 2 * p + 2):
+                    for y in range(-2, 2 * p + 2):
+                        judge_pair(ctx, curve, dom, x, y, "toy.point_is_valid", "h%d|%s" % (t.N // n, "in" if 0 <= x < p and 0 <= y < p else "alias"))
             ctx.nontrivial.add("toy.exhaustive|%s" % curve.name)
